@@ -326,13 +326,30 @@ fn cancelled_divergence(code: &[u8], knobs: &Knobs, scheds: &[Sched], r: &mut Rn
     let three: Vec<Sched> = vec![scheds[0].clone(), scheds[1 % scheds.len()].clone(), scheds[scheds.len() - 1].clone()];
     let mut probe_sc = cancelled_scenario(code, knobs, &three[0], u64::MAX, false);
     probe_sc.wd.stop_at = None;
+    probe_sc.wd.log_sites = true;
     let probe = sim::run(&probe_sc, &RunOpts::default());
     res.runs += 1;
     if probe.polls == 0 || probe.budget_exhausted || probe.class == Class::Panic {
         return None;
     }
     // Later polls (the type checker's) a little more often than the VM's.
-    let k = if r.chance(1, 2) { r.below(probe.polls) } else { probe.polls - 1 - r.below(probe.polls.min(40)) };
+    // Half of the time a poll made by the unifier (where what has and has
+    // not been folded yet depends on the order), otherwise any poll, the late
+    // ones (layout building) a little more often.
+    let unify_polls: Vec<u64> = probe
+        .poll_sites
+        .iter()
+        .enumerate()
+        .filter(|(_, s)| **s as usize == storage_layout_extractor::verif::Site::Unify as usize)
+        .map(|(i, _)| i as u64)
+        .collect();
+    let k = if !unify_polls.is_empty() && r.chance(1, 2) {
+        *r.pick(&unify_polls)
+    } else if r.chance(1, 2) {
+        r.below(probe.polls)
+    } else {
+        probe.polls - 1 - r.below(probe.polls.min(60))
+    };
     let one_shot = r.chance(1, 2);
     let outs = cancelled_outcomes(code, knobs, &three, k, one_shot, Some(res))?;
     res.fault(if one_shot { "one_shot_stop_request_under_three_orders" } else { "sticky_stop_request_under_three_orders" });
@@ -435,12 +452,12 @@ impl Check for C02Check {
                 replay:    json!({"check": "C02", "kind": "pair", "code": hex::encode(&small), "knobs": knobs, "sched_a": scheds[0], "sched_b": scheds[ix]}),
             });
         }
-        // One case in four: the same analysis *cancelled at the same poll*
+        // One case in three: the same analysis *cancelled at the same poll*
         // under three iteration orders. The watchdog's answers are part of
         // the configuration, so the result (a stop error, or whatever the
         // library makes of a stop request that is visible to one poll only)
         // must not depend on the order either.
-        if res.violations.is_empty() && r.chance(1, 4) {
+        if res.violations.is_empty() && r.chance(1, 3) {
             if let Some(v) = cancelled_divergence(&code, &knobs, &scheds, &mut r, &mut res) {
                 res.violations.push(v);
             }
